@@ -10,6 +10,7 @@ import (
 	"path/filepath"
 	"regexp"
 	"runtime"
+	"runtime/pprof"
 	"sort"
 	"strconv"
 	"strings"
@@ -156,6 +157,11 @@ func workerMain(args []string) {
 	solver := fs.String("solver", "z3", "")
 	maxPaths := fs.Int("max-paths", 0, "")
 	fs.Parse(args)
+	if p := os.Getenv("SYMGO_PPROF"); p != "" {
+		f, _ := os.Create(p)
+		pprof.StartCPUProfile(f)
+		defer pprof.StopCPUProfile()
+	}
 	wo := &workerOut{}
 	defer func() {
 		b, _ := json.Marshal(wo)
@@ -245,6 +251,14 @@ func runHarness(prog *ssa.Program, hp *ssa.Package, fn *ssa.Function, thorough b
 			res.Outcomes = append(res.Outcomes, &Outcome{Kind: "inconclusive", ID: "solver-error", Msg: fmt.Sprintf("%d solver error lines", in.sol.nerr), Harness: fn.Name()})
 		}
 	}()
+	if os.Getenv("SYMGO_DECSTATS") != "" {
+		decStats = map[string]int{}
+		defer func() {
+			for _, k := range sortedKeys(decStats) {
+				fmt.Fprintf(os.Stderr, "DEC %6d %s\n", decStats[k], k)
+			}
+		}()
+	}
 	in.Explore(fn)
 	return res
 }
@@ -505,7 +519,7 @@ func checkMain(args []string) int {
 					validated++
 					if nr.Failed != "" || nr.AssumeFailed || strings.Join(nr.Observed, ";") != strings.Join(m.Observed, ";") {
 						mismatches++
-						broken = append(broken, fmt.Sprintf("translator validation mismatch in %s: engine %v native %v (failed=%q) model=%v", nr.Harness, m.Observed, nr.Observed, nr.Failed, m.Model))
+						broken = append(broken, fmt.Sprintf("translator validation mismatch in %s: engine %v native %v (failed=%q) model=%s", nr.Harness, m.Observed, nr.Observed, nr.Failed, shortModel(m.Model)))
 					}
 				}
 			}
@@ -515,6 +529,7 @@ func checkMain(args []string) int {
 	// classify candidates
 	violations := 0
 	knownSeen := map[string]bool{}
+	os.RemoveAll(filepath.Join(verifDir, "replays", prop))
 	os.MkdirAll(filepath.Join(verifDir, "replays", prop), 0o755)
 	var lines []string
 	for _, c := range cands {
@@ -524,7 +539,7 @@ func checkMain(args []string) int {
 			if o.Model == nil {
 				broken = append(broken, fmt.Sprintf("%s: %s %s without model", o.Harness, o.Kind, o.ID))
 			} else {
-				broken = append(broken, fmt.Sprintf("%s: counterexample for %q (%s) did not reproduce natively (spurious; encoding too weak) model=%v", o.Harness, o.ID, o.Kind, o.Model))
+				broken = append(broken, fmt.Sprintf("%s: counterexample for %q (%s) did not reproduce natively (spurious; encoding too weak) model=%s", o.Harness, o.ID, o.Kind, shortModel(o.Model)))
 			}
 			continue
 		}
@@ -693,4 +708,21 @@ func replayMain(args []string) int {
 		}
 	}
 	return 0
+}
+
+func shortModel(m map[string]string) string {
+	var ks []string
+	for k := range m {
+		ks = append(ks, k)
+	}
+	sort.Strings(ks)
+	var sb strings.Builder
+	for _, k := range ks {
+		v := m[k]
+		if len(v) > 60 {
+			v = v[:60] + "…"
+		}
+		fmt.Fprintf(&sb, "%s=%s ", k, v)
+	}
+	return sb.String()
 }
